@@ -324,7 +324,7 @@ def close_param(ctx, lexpr, rule=None):
                             return ("value", sim.Tup([UNK, UNK]))
                         return None
 
-                    S = sim.Sim([lexpr], hooks={"call": hook}, inline=lex.helper_inline(lexpr),
+                    S = sim.Sim([lexpr], hooks={"call": hook}, inline=lex.worker_inline(lexpr, f),
                                 max_visits=4, max_paths=4000)
                     outs = set()
                     for p in S.run(f, args={ti: term}):
@@ -386,7 +386,7 @@ def dot_class(ctx, lexpr):
                     return ("value", sim.Tup([UNK, UNK]))
                 return None
 
-            S = sim.Sim([lexpr], hooks={"call": hook}, inline=lex.helper_inline(lexpr), max_visits=4, max_paths=4000)
+            S = sim.Sim([lexpr], hooks={"call": hook}, inline=lex.worker_inline(lexpr, f), max_visits=4, max_paths=4000)
             outs = set()
             try:
                 for p in S.run(f, args={f.param_index("terminator") or 2: 0x29}):
